@@ -1,189 +1,18 @@
-import G3d.NumFloat
-import G3d.Model.Vec
-import G3d.Model.Approx
-import G3d.Model.BBox
-import G3d.Model.Transform
+import G3d.DriverCore
+import G3d.DriverAlgebra
 /-!
-Line-protocol driver (test apparatus; imports only core + the model).
-
-A case line is   `<op> <arg> <arg> … => <result tokens…>`   where the part after `=>` is what the Rust
-implementation returned.  The driver recomputes the result with the model (hardware floats), and
-prints nothing when the two strings are equal, else `DIS <line> || <model result>`.
-Floats are hex bit patterns (16 digits for f64, 8 for f32); NaN is canonicalised to `nan`.
+Line-protocol driver (test apparatus; imports only core + the model).  See DriverCore for the protocol.
+Each layer of the model contributes a partial dispatcher `runOpX : String → Option (RdM String)`.
 -/
 namespace G3d
 open Num
-
-class FloatIO (α : Type) where
-  ofHex : String → α
-  toHex : α → String
-
-def hexDigit (c : Char) : Nat :=
-  if '0' ≤ c ∧ c ≤ '9' then c.toNat - '0'.toNat
-  else if 'a' ≤ c ∧ c ≤ 'f' then c.toNat - 'a'.toNat + 10
-  else if 'A' ≤ c ∧ c ≤ 'F' then c.toNat - 'A'.toNat + 10 else 0
-
-def parseHex (s : String) : Nat := s.foldl (fun acc c => acc * 16 + hexDigit c) 0
-
-def natToHex (n : Nat) (digits : Nat) : String :=
-  let rec go (k : Nat) (n : Nat) (acc : List Char) : List Char :=
-    match k with
-    | 0 => acc
-    | k+1 => go k (n / 16) ((Nat.digitChar (n % 16)) :: acc)
-  String.ofList (go digits n [])
-
-instance : FloatIO Float where
-  ofHex s := if s == "nan" then Float.ofBits 0x7FF8000000000000 else Float.ofBits (parseHex s).toUInt64
-  toHex x := if x.isNaN then "nan" else natToHex x.toBits.toNat 16
-
-instance : FloatIO Float32 where
-  ofHex s := if s == "nan" then Float32.ofBits 0x7FC00000 else Float32.ofBits (parseHex s).toUInt32
-  toHex x := if x.isNaN then "nan" else natToHex x.toBits.toNat 8
-
-/-- token reader -/
-structure Rd where
-  toks : Array String
-  pos : Nat
-
-abbrev RdM := StateM Rd
-
-def rdTok : RdM String := do
-  let s ← get
-  set { s with pos := s.pos + 1 }
-  return s.toks.getD s.pos ""
-
 section
 variable {α : Type} [Num α] [FloatIO α]
 
-def rdF : RdM α := do return FloatIO.ofHex (← rdTok)
-def rdN : RdM Nat := do return (← rdTok).toNat!
-def rdV : RdM (V3 α) := do
-  let x ← rdF; let y ← rdF; let z ← rdF
-  return ⟨x, y, z⟩
-def rdA : RdM (Approx α) := do
-  let l ← rdF; let h ← rdF
-  return ⟨l, h⟩
-def rdRay : RdM (Ray α) := do
-  let o ← rdV; let d ← rdV
-  return ⟨o, d⟩
-def rdBox : RdM (BBox α) := do
-  let a ← rdV; let b ← rdV
-  return ⟨a, b⟩
-
-def shF (x : α) : String := FloatIO.toHex x
-def shB (b : Bool) : String := if b then "1" else "0"
-def shV (v : V3 α) : String := s!"{shF v.x} {shF v.y} {shF v.z}"
-def shA (a : Approx α) : String := s!"{shF a.low} {shF a.high}"
-def shBox (b : BBox α) : String := s!"{shV b.min} {shV b.max}"
-def shRay (r : Ray α) : String := s!"{shV r.origin} {shV r.direction}"
-def shM4 (m : M4 α) : String :=
-  " ".intercalate ([m.a00, m.a01, m.a02, m.a03, m.a10, m.a11, m.a12, m.a13,
-                    m.a20, m.a21, m.a22, m.a23, m.a30, m.a31, m.a32, m.a33].map shF)
-def shT (t : Transform α) : String := s!"{shM4 t.m} {shM4 t.inv}"
-
-/-- an elementary transform: `I`, `T x y z`, `S x y z`, `RX d`, `RY d`, `RZ d` -/
-def rdElem : RdM (Transform α) := do
-  let k ← rdTok
-  match k with
-  | "T" => do let x ← rdF; let y ← rdF; let z ← rdF; return Transform.translate x y z
-  | "S" => do let x ← rdF; let y ← rdF; let z ← rdF; return Transform.scale x y z
-  | "RX" => do let d ← rdF; return Transform.rotateX d
-  | "RY" => do let d ← rdF; return Transform.rotateY d
-  | "RZ" => do let d ← rdF; return Transform.rotateZ d
-  | _ => return Transform.new
-
-/-- a chain: `n e1 … en`, composed as `t = new(); t *= e1; …; t *= en` -/
-def rdChain : RdM (Transform α) := do
-  let n ← rdN
-  let mut t : Transform α := Transform.new
-  for _ in [0:n] do
-    let e ← rdElem (α := α)
-    t := t.mulAssign e
-  return t
-
-/-- `consts` line: every constant the model hard-codes, as computed by the model -/
-def constsLine : String :=
-  " ".intercalate [shF (Num.eps : α), shF (tiny100 : α), shF (Num.maxv : α), shF (Num.pi : α),
-    shF (gamma (3 : α)), shF ((1 : α) + 2 * gamma (3 : α)), shF ((1e-5 : α)), shF ((1e-7 : α)),
-    shF ((1e-6 : α)), shF ((1e-8 : α)), shF ((1e-3 : α)), shF (toRadians (1 : α)), shF (toDegrees (1 : α)),
-    shF ((0.5 : α)), shF ((9E14 : α)), shF ((1E19 : α)), shF ((1 : α) - (1e-8 : α))]
-
-def runOp (op : String) : RdM String := do
-  match op with
-  | "consts" => return constsLine (α := α)
-  -- ApproxFloat ------------------------------------------------------------
-  | "nu" => do let x ← rdF (α := α); return shF (nextUp x)
-  | "nd" => do let x ← rdF (α := α); return shF (nextDown x)
-  | "ap.neg" => do let a ← rdA (α := α); return shA a.neg
-  | "ap.sqrt" => do let a ← rdA (α := α); return shA a.sqrt
-  | "ap.add" => do let a ← rdA (α := α); let b ← rdA; return shA (a.add b)
-  | "ap.sub" => do let a ← rdA (α := α); let b ← rdA; return shA (a.sub b)
-  | "ap.mul" => do let a ← rdA (α := α); let b ← rdA; return shA (a.mul b)
-  | "ap.div" => do let a ← rdA (α := α); let b ← rdA; return shA (a.div b)
-  | "ap.addF" => do let a ← rdA (α := α); let b ← rdF; return shA (a.addF b)
-  | "ap.subF" => do let a ← rdA (α := α); let b ← rdF; return shA (a.subF b)
-  | "ap.mulF" => do let a ← rdA (α := α); let b ← rdF; return shA (a.mulF b)
-  | "ap.divF" => do let a ← rdA (α := α); let b ← rdF; return shA (a.divF b)
-  | "ap.addA" => do let a ← rdA (α := α); let b ← rdA; return shA (a.addAssign b)
-  | "ap.subA" => do let a ← rdA (α := α); let b ← rdA; return shA (a.subAssign b)
-  | "ap.mulA" => do let a ← rdA (α := α); let b ← rdA; return shA (a.mulAssign b)
-  | "ap.divA" => do let a ← rdA (α := α); let b ← rdA; return shA (a.divAssign b)
-  | "ap.addAF" => do let a ← rdA (α := α); let b ← rdF; return shA (a.addAssignF b)
-  | "ap.subAF" => do let a ← rdA (α := α); let b ← rdF; return shA (a.subAssignF b)
-  | "ap.mulAF" => do let a ← rdA (α := α); let b ← rdF; return shA (a.mulAssignF b)
-  | "ap.divAF" => do let a ← rdA (α := α); let b ← rdF; return shA (a.divAssignF b)
-  | "ap.fve" => do let v ← rdF (α := α); let e ← rdF; return shA (Approx.fromValueAndError v e)
-  | "ap.mid" => do let a ← rdA (α := α); return s!"{shF a.midpoint} {shF a.absoluteError}"
-  | "ap.maxmin" => do
-      let a ← rdF (α := α); let b ← rdF; let c ← rdF; let d ← rdF
-      let r := maxMin4 a b c d
-      return s!"{shF r.1} {shF r.2}"
-  | "ap.solve" => do
-      let a ← rdA (α := α); let b ← rdA; let c ← rdA
-      match Approx.solveQuadratic a b c with
-      | none => return "none"
-      | some (x1, x2) => return s!"some {shA x1} {shA x2}"
-  -- Transform -----------------------------------------------------------------
-  | "tr.chain" => do let t ← rdChain (α := α); return shT t
-  | "tr.hands" => do let t ← rdChain (α := α); return shB t.changesHands
-  | "tr.pt" => do let t ← rdChain (α := α); let p ← rdV; return s!"{shV (t.transformPt p)} {shV (t.invTransformPt p)}"
-  | "tr.vec" => do let t ← rdChain (α := α); let p ← rdV; return s!"{shV (t.transformVec p)} {shV (t.invTransformVec p)}"
-  | "tr.nrm" => do let t ← rdChain (α := α); let p ← rdV; return s!"{shV (t.transformNormal p)} {shV (t.invTransformNormal p)}"
-  | "tr.box" => do let t ← rdChain (α := α); let b ← rdBox; return s!"{shBox (t.transformBBox b)} {shBox (t.invTransformBBox b)}"
-  | "tr.pterr" => do
-      let t ← rdChain (α := α); let p ← rdV
-      let a := Transform.ptWithError t.m p; let b := Transform.ptWithError t.inv p
-      return s!"{shV a.1} {shV a.2} {shV b.1} {shV b.2}"
-  | "tr.vecerr" => do
-      let t ← rdChain (α := α); let p ← rdV
-      let a := Transform.vecWithError t.m p; let b := Transform.vecWithError t.inv p
-      return s!"{shV a.1} {shV a.2} {shV b.1} {shV b.2}"
-  | "tr.ptprop" => do
-      let t ← rdChain (α := α); let p ← rdV; let e ← rdV
-      let a := Transform.ptPropagateError t.m p e; let b := Transform.ptPropagateError t.inv p e
-      return s!"{shV a.1} {shV a.2} {shV b.1} {shV b.2}"
-  | "tr.vecprop" => do
-      let t ← rdChain (α := α); let p ← rdV; let e ← rdV
-      let a := Transform.vecPropagateError t.m p e; let b := Transform.vecPropagateError t.inv p e
-      return s!"{shV a.1} {shV a.2} {shV b.1} {shV b.2}"
-  | "tr.ray" => do
-      let t ← rdChain (α := α); let r ← rdRay
-      let a := Transform.rayWith t.m r; let b := Transform.rayWith t.inv r
-      return s!"{shRay a.1} {shV a.2.1} {shV a.2.2} {shRay b.1} {shV b.2.1} {shV b.2.2}"
-  | "tr.rayprop" => do
-      let t ← rdChain (α := α); let r ← rdRay; let oe ← rdV; let de ← rdV
-      let a := Transform.rayPropagate t.m r oe de; let b := Transform.rayPropagate t.inv r oe de
-      return s!"{shRay a.1} {shV a.2.1} {shV a.2.2} {shRay b.1} {shV b.2.1} {shV b.2.2}"
-  -- BBox ------------------------------------------------------------------------
-  | "bb.new" => do let a ← rdV (α := α); let b ← rdV; return shBox (BBox.new a b)
-  | "bb.unionpt" => do let b ← rdBox (α := α); let p ← rdV; return shBox (b.fromUnionPoint p)
-  | "bb.union" => do let a ← rdBox (α := α); let b ← rdBox; return shBox (a.fromUnion b)
-  | "bb.inter" => do let a ← rdBox (α := α); let b ← rdBox; return shBox (a.fromIntersection b)
-  | "bb.overlaps" => do let a ← rdBox (α := α); let b ← rdBox; return shB (a.overlaps b)
-  | "bb.inside" => do let a ← rdBox (α := α); let p ← rdV; return s!"{shB (a.pointInside p)} {shB (a.pointInsideExclusive p)}"
-  | "bb.misc" => do let a ← rdBox (α := α); return s!"{a.maxExtent} {shF a.surfaceArea}"
-  | "bb.hit" => do let a ← rdBox (α := α); let r ← rdRay; let inv ← rdV; return shB (a.intersect r inv)
-  | _ => return "unknown-op"
+def runOp (op : String) : RdM String :=
+  match runOpAlgebra (α := α) op with
+  | some m => m
+  | none => return "unknown-op"
 
 def processLine (line : String) : Option String :=
   match line.splitOn " => " with
